@@ -142,7 +142,7 @@ def concretise_record(rc, rng):
 
 def feed(pair, dst, data, chunking, rng):
     """hand bytes to a real protocol end the way TCP might: whole, split in two, or in small pieces"""
-    if chunking == "whole":
+    if chunking in ("whole", "joined"):
         chunks = [data]
     elif chunking == "two":
         k = rng.randrange(1, len(data)) if len(data) > 1 else 1
@@ -173,19 +173,28 @@ def drain_writes(pair, src):
 def settle(pair, relay_ok=True, chunking="whole", rng=None, stop_before=None):
     """run the genuine exchange (relay reply, prologues, handshakes, KCMs) to completion"""
     rng = rng or random.Random(0)
+    # "joined": TCP hands over several writes in one read - the Follower's direction is served first, so that the
+    # Leader's prologue and its handshake message (written once it has seen the Follower's prologue) arrive together
+    order = ((pair.F, pair.L), (pair.L, pair.F)) if chunking == "joined" else ((pair.L, pair.F), (pair.F, pair.L))
     for _ in range(20):
         moved = False
-        for src, dst in ((pair.L, pair.F), (pair.F, pair.L)):
+        for src, dst in order:
             buf = drain_writes(pair, src)
             if not buf:
                 continue
             moved = True
+            rest = b""
             for kind, tok in tokens_of(buf, pair.relay):
                 if kind == "relayhs":
                     # the relay answers ok to the one who asked
                     feed(pair, src, b"ok\n", chunking, rng)
                     continue
-                feed(pair, dst, tok, chunking, rng)
+                if chunking == "joined":
+                    rest += tok
+                else:
+                    feed(pair, dst, tok, chunking, rng)
+            if rest:
+                feed(pair, dst, rest, "whole", rng)
         for dc in reactor.due():
             reactor.run_call(dc)
         if not moved:
@@ -365,12 +374,12 @@ def run(prop, tier):
                     behaviours.append((relay, kind, at))
         cov["record_classes"] = len(classes)
         tid = 0
-        chunkings = ["whole", "two", "head", "bytes"]
+        chunkings = ["whole", "joined", "two", "head", "bytes"]
         for rc in classes:
             if rc["t"] == "KCM":
                 continue      # the KCM is the handshake's own record: exercised by every run's set-up, never sent again
             big = rc["t"] == "Data" and int(rc["x"]) > 70000
-            for chunking in (chunkings[:2] if quick or big else chunkings):
+            for chunking in (chunkings[:3] if quick or big else chunkings):
                 for direction in ("l2f", "f2l"):
                     if quick and direction == "f2l" and chunking != "whole":
                         continue
